@@ -25,6 +25,8 @@ PRED_CALLEES = {
     "alloc::vec::Vec::<T, A>::is_empty",
 }
 
+NO_ROWS_IMPOSSIBLE = {"rusqlite::Connection::prepare", "rusqlite::cache::<impl rusqlite::Connection>::prepare_cached", "rusqlite::Connection::open"}
+
 EQ_CALLEES = {"core::cmp::PartialEq::eq": True, "core::cmp::PartialEq::ne": False}
 
 
@@ -593,6 +595,31 @@ class GEA:
         if info["kind"] == "atom":
             atom = info["atom"]
             arms = info["arms"]
+            if atom[0] == "VARIANT" and atom[1][0] == "agg" and isinstance(atom[1][1], tuple) and atom[1][1][0] == "adt":
+                # a match on a literal (`Some(x).filter(..)`, `match Ok(v) {..}`): the arm is static
+                vname = atom[1][1][2]
+                if atom[1][1][1] in P.STD_SUM_TYPES:
+                    vname = norm_variant_name(vname)
+                return [(tg, val) for tg, vs in arms.items() if vname in vs]
+            if atom[0] == "VARIANT" and atom[1][0] != "phi" and P.phi_locals(atom[1]):
+                # a match on a value wrapped around a multi-def local (`helper(..)?` returning Ok(Decision::X) on several
+                # paths): if the definitions selected in this valuation make it a literal variant, the arm is static
+                r = self.resolve_phis(atom[1], val)
+                if r[0] == "call" and r[1] == "rusqlite::OptionalExtension::optional" and r[3]:
+                    # optional() turns only Err(QueryReturnedNoRows) into Ok(None); an error handed through from compiling the
+                    # statement (prepare / prepare_cached) is never that variant, so optional(Err(e)) stays an Err
+                    x = r[3][0]
+                    if x[0] == "agg" and isinstance(x[1], tuple) and x[1][0] == "adt" and x[1][2] == "Err" and x[2]:
+                        e_ = x[2][0][1]
+                        while e_[0] == "err":
+                            e_ = e_[1]
+                        if e_[0] == "call" and e_[1] in NO_ROWS_IMPOSSIBLE:
+                            return [(tg, val) for tg, vs in arms.items() if "err" in vs]
+                if r[0] == "agg" and isinstance(r[1], tuple) and r[1][0] == "adt":
+                    vname = r[1][2]
+                    if r[1][1] in P.STD_SUM_TYPES:
+                        vname = norm_variant_name(vname)
+                    return [(tg, val) for tg, vs in arms.items() if vname in vs]
             if atom[0] == "VARIANT" and atom[1][0] == "phi":
                 # match on a value computed into a local first: resolve which definition reaches here
                 r = self.resolve_root(atom[1], val)
